@@ -2080,6 +2080,9 @@ def import_cross_module_helpers(trees, stats):
               for a in st.names:
                 if (a.asname or a.name).split('.')[0] == nm:
                   got = ast.Import(names=[ast.alias(name=a.name, asname=a.asname)])
+          if got is None and any((isinstance(st, FN + (ast.ClassDef,)) and st.name == nm) or (isinstance(st, ast.Assign) and any(isinstance(t, ast.Name) and t.id == nm for t in st.targets))
+                                 for st in atree.body):
+            got = ast.ImportFrom(module=src, names=[ast.alias(name=nm, asname=None)], level=0)     # defined by A itself
           if got is None:
             ok = False
             break
